@@ -59,8 +59,9 @@ def check(ctx):
                        "execution is reached only through the false arm of the dry_run test" if dom and not via_dry else
                        "execution can be reached without passing the dry_run test on its false arm", norm(x)[:80])
         # user-reaching calls before the test: only the registry application (stale check) and transform_physical
-        from .evalrules import totals_function
-        totals_fn = totals_function(m, "run")
+        from .evalrules import totals_site
+        totals_calls = totals_site(m, rr, "run")[1]
+        totals_calls = totals_calls if isinstance(totals_calls, list) else [totals_calls]
         from .prunerules import prune_role
         prune_fn = prune_role(m, rr)
         before = g.reach([g.entry], avoid=tn)
@@ -76,7 +77,7 @@ def check(ctx):
                 names & {"_coerce_progress", "assert_is_instance", "assert_is_callable", "_coerce_retry"} \
                 or (fs and all(roles.is_mutable_plan_func(m, f_) or f_ is prune_fn for f_ in fs)) \
                 or (isinstance(c.func, ast.Attribute) and c.func.attr in ({"observer", "copy"} | roles.gather_names(m))) \
-                or names & {"get_stack_frame"} or totals_fn in fs
+                or names & {"get_stack_frame"} or any(c is tc_ or any(x is c for x in ast.walk(stmt_of(run.module, tc_))) for tc_ in totals_calls)
             ctx.ob("C14.D1", f"{run.short}/before-test", bool(okc), loc(run, c),
                    "allowed before the dry_run test (validation, observer, stale check, transformations)" if okc else
                    "a user-reaching call other than the stale check / transformations runs before the dry_run test", norm(c)[:100])
